@@ -345,6 +345,82 @@ case!(E5C: E5<Vec<u8>>, make = |_s| e5(), same = |a, b| match (a, b) { (E5::A, E
       borrows = |e, out| { if let E5::D { b, .. } = e { out.slice(*b, 0); } }, n = |x| if matches!(x, E5::D { .. }) { 1 } else { 0 },
       alloc = |x| match x { E5::C(_, v) => v.len() * 2, _ => 0 });
 
+// ---- more compositions (thorough tier) ------------------------------------------------------
+
+zvec!(VecChar: char, 2, VecBool: bool, 3, VecNzU32: NonZeroU32, 2, VecI64: i64, 2, VecTup1U8: (u8,), 3,
+      VecArrU8x0: [u8; 0], 2, VecRangeToInclU8: RangeToInclusive<u8>, 3, VecZGenU32: ZGen<u32>, 2, VecZConst3: ZConst<3>, 2);
+fn vec_f32() -> Vec<f32> { vec_upto::<f32, 2>() }
+fn eq_f32s(a: &[f32], b: &[f32]) -> bool {
+    if a.len() != b.len() { return false; }
+    let mut i = 0;
+    while i < a.len() { if a[i].to_bits() != b[i].to_bits() { return false; } i += 1; }
+    true
+}
+case!(VecF32: Vec<f32>, make = |_s| vec_f32(), same = |a, b| eq_f32s(a, b), eps = |x, e| eq_f32s(x, e),
+      borrows = |e, out| { out.slice(*e, 0); }, n = |_x| 1);
+plain!(OptBool: Option<bool>, OptChar: Option<char>, OptRangeU32: Option<Range<u32>>, CfUnitU8: ControlFlow<(), u8>, OptPhantom: Option<PhantomData<u8>>,
+       RangeU64: Range<u64>, BoundUnit: Bound<()>, OptNzU8: Option<NonZeroU8>);
+fn range_incl_u8() -> RangeInclusive<u8> { any::<u8>()..=any::<u8>() }
+case!(RangeInclU8: RangeInclusive<u8>, make = |_s| range_incl_u8(), same = |a, b| a == b, eps = |x, e| x == e);
+fn opt_string(s: usize) -> Option<String> { if any::<bool>() { Some(str3(s)) } else { None } }
+case!(OptString: Option<String>, shapes = 3, make = |s| opt_string(s),
+      same = |a, b| match (a, b) { (None, None) => true, (Some(a), Some(b)) => eqstr(a, b), _ => false },
+      eps = |x, e| match (x, e) { (None, None) => true, (Some(a), Some(b)) => eqstr(a, b), _ => false },
+      borrows = |e, out| { if let Some(s) = e { out.str(*s, 0); } }, n = |x| if x.is_some() { 1 } else { 0 });
+fn bound_vec() -> Bound<Vec<u8>> {
+    let t: u8 = any();
+    assume(t < 3);
+    match t { 0 => Bound::Unbounded, 1 => Bound::Included(vec_upto::<u8, 2>()), _ => Bound::Excluded(vec_upto::<u8, 2>()) }
+}
+case!(BoundVecU8: Bound<Vec<u8>>, make = |_s| bound_vec(),
+      same = |a, b| match (a, b) { (Bound::Unbounded, Bound::Unbounded) => true, (Bound::Included(a), Bound::Included(b)) => eqs(a, b), (Bound::Excluded(a), Bound::Excluded(b)) => eqs(a, b), _ => false },
+      eps = |x, e| match (x, e) { (Bound::Unbounded, Bound::Unbounded) => true, (Bound::Included(a), Bound::Included(b)) => eqs(a, b), (Bound::Excluded(a), Bound::Excluded(b)) => eqs(a, b), _ => false },
+      borrows = |e, out| { match e { Bound::Included(s) | Bound::Excluded(s) => out.slice(*s, 0), _ => {} } }, n = |x| if matches!(x, Bound::Unbounded) { 0 } else { 1 });
+/// (outer len, inner lens) of a boxed slice of vectors
+pub const BV_SHAPES: [(usize, usize, usize); 4] = [(0, 0, 0), (1, 2, 0), (2, 0, 1), (2, 2, 2)];
+fn box_vec_u8(s: usize) -> Box<[Vec<u8>]> {
+    let (o, a, b) = BV_SHAPES[s];
+    let mut v = Vec::with_capacity(2);
+    if o >= 1 { v.push(vec_n::<u8>(a)); }
+    if o >= 2 { v.push(vec_n::<u8>(b)); }
+    v.into_boxed_slice()
+}
+fn eq_bv(a: &[Vec<u8>], b: &[Vec<u8>]) -> bool {
+    if a.len() != b.len() { return false; }
+    let mut i = 0;
+    while i < a.len() { if !eqs(&a[i], &b[i]) { return false; } i += 1; }
+    true
+}
+fn eq_bv_eps(a: &[Vec<u8>], e: &[&[u8]]) -> bool {
+    if a.len() != e.len() { return false; }
+    let mut i = 0;
+    while i < a.len() { if !eqs(&a[i], e[i]) { return false; } i += 1; }
+    true
+}
+case!(BoxVecU8: Box<[Vec<u8>]>, shapes = 4, make = |s| box_vec_u8(s), same = |a, b| eq_bv(a, b), eps = |x, e| eq_bv_eps(x, e),
+      borrows = |e, out| { let mut i = 0; while i < e.len() { out.slice(e[i], i); i += 1; } }, n = |x| x.len(),
+      alloc = |x| x.len() * core::mem::size_of::<&[u8]>());
+zarr!(ArrArrU32x0: [u32; 0], 2, ArrZUnitx3: ZUnit, 3, ArrZAl4x2: ZAl4, 2, ArrTup2x2: (u16, u16), 2);
+case!(TupZeroS2: (ZeroS, ZeroS), make = |_s| any(), same = |a, b| a == b, eps = |x, e| x == *e, borrows = |e, out| { out.re(*e, 0); }, n = |_x| 1);
+case!(TupF64x2: (f64, f64), make = |_s| (any(), any()), same = |a, b| a.0.to_bits() == b.0.to_bits() && a.1.to_bits() == b.1.to_bits(),
+      eps = |x, e| x.0.to_bits() == e.0.to_bits() && x.1.to_bits() == e.1.to_bits(), borrows = |e, out| { out.re(*e, 0); }, n = |_x| 1);
+fn hold_vec_zunit() -> Hold<Vec<ZUnit>> { Hold { a: any(), z: vec_upto::<ZUnit, 2>(), b: any() } }
+case!(HoldVecZUnit: Hold<Vec<ZUnit>>, make = |_s| hold_vec_zunit(), same = |a, b| a.a == b.a && a.z.len() == b.z.len() && a.b == b.b,
+      eps = |x, e| { let e: &Hold<&[ZUnit]> = e; x.a == e.a && x.z.len() == e.z.len() && x.b == e.b },
+      borrows = |e, out| { out.slice(e.z, 0); }, n = |_x| 1);
+fn hold_arr0() -> Hold<[u64; 0]> { Hold { a: any(), z: [], b: any() } }
+case!(HoldArrU64x0: Hold<[u64; 0]>, make = |_s| hold_arr0(), same = |a, b| a.a == b.a && a.b == b.b,
+      eps = |x, e| { let e: &Hold<&[u64; 0]> = e; x.a == e.a && x.b == e.b },
+      borrows = |e, out| { out.re(e.z, 0); }, n = |_x| 1);
+fn en_zeros() -> En<ZeroS> {
+    let t: u8 = any();
+    assume(t < 3);
+    match t { 0 => En::A, 1 => En::B(any()), _ => En::C { x: any(), y: any() } }
+}
+case!(EnZeroS: En<ZeroS>, make = |_s| en_zeros(), same = |a, b| a == b,
+      eps = |x, e| { let e: &En<&ZeroS> = e; match (x, e) { (En::A, En::A) => true, (En::B(a), En::B(b)) => a == *b, (En::C { x: x1, y: y1 }, En::C { x: x2, y: y2 }) => x1 == x2 && y1 == *y2, _ => false } },
+      borrows = |e, out| { match e { En::A => {}, En::B(b) => out.re(*b, 0), En::C { y, .. } => out.re(*y, 0) } }, n = |x| if matches!(x, En::A) { 0 } else { 1 });
+
 // ---- nesting of derived types in containers ------------------------------------------------
 
 fn opt_zeros() -> Option<ZeroS> { any() }
